@@ -169,8 +169,11 @@ def rules_validate(run, r):
     rz = [x for x in q.raises_in(M) if q.raised_class(x) == 'StatechartError']
     conds = [(x, guard_atoms(x, stop=lp[0])) for x in rz]
 
+    aliases = {sv + '.memory'} | {st.targets[0].id for st in q.walk(M, False) if isinstance(st, ast.Assign) and isinstance(st.targets[0], ast.Name)
+                                   and q.unparse(st.value) == sv + '.memory'}
+
     def mem(s):
-        return s in ('memory', sv + '.memory')
+        return s in aliases
     selfc = [x for x, c in conds if any(a[0] == '==' and ((mem(a[1]) and a[2] in (nm, sv + '.name')) or (mem(a[2]) and a[1] in (nm, sv + '.name'))) for a in c)]
     exist = [x for x, c in conds if any(a[0] == 'not in' and mem(a[1]) and a[2] == 'self._states' for a in c)]
     sib = [x for x, c in conds if any(a[0] == 'not in' and mem(a[1]) and 'children_for' in a[2] and 'parent_for' in a[2] for a in c)]
@@ -184,9 +187,6 @@ def rules_validate(run, r):
                       "children of the history state's own parent", 'compared with %s' % a[2], x)
         extra = [a for a in c if not (a[0] == 'truthy' and 'HistoryStateMixin' in a[1]) and not mem(a[1]) and not mem(a[2])]
         run.check(not extra, r, mi.short, 'memory tests apply to every history state with a memory', 'conditional on %s' % extra, x)
-    if 'memory' in [t.id for st in q.walk(M) if isinstance(st, ast.Assign) for t in st.targets if isinstance(t, ast.Name)]:
-        d = q.assigned_value(M, 'memory')
-        run.check(len(d) == 1 and q.unparse(d[0][1]) == sv + '.memory', r, mi.short, 'local memory = state.memory', 'differs', M)
     va = run.fn('Statechart.validate')
     calls = [dotted(c.func) for c in q.calls(va.node)]
     for sub in ('self._validate_compoundstate_initial', 'self._validate_historystate_memory'):
@@ -199,20 +199,22 @@ def check(run):
     rules_registration(run)
     r = run.rule('C12.1b', 'initial / memory / child-kind / type obligations: validate() sub-validators and importer tests')
     rules_validate(run, r)
+    from .c11 import io_names
+    N = io_names(run, r)
     si = run.fn('_import_state_from_dict')
     S = si.node
     rz = [x for x in q.raises_in(S) if q.raised_class(x) == 'StatechartError']
-    both = [x for x in rz if sorted(a[1] for a in guard_atoms(x) if a[0] == 'truthy' and 'substates' in a[1]) == ['parallel_substates', 'substates']]
+    subs = sorted(x for x in (N['substates'], N['parallel']) if x)
+    run.check(len(subs) == 2, r, si.short, "locals read from 'states' and 'parallel states'", 'the two child lists are not read into locals', S)
+    both = [x for x in rz if sorted(a[1] for a in guard_atoms(x) if a[0] == 'truthy' and a[1] in subs) == subs]
     run.check(len(both) == 1, r, si.short, "declaring both 'states' and 'parallel states' is rejected", 'missing test', S)
-    for nm, key in (('substates', 'states'), ('parallel_substates', 'parallel states')):
-        d = q.assigned_value(S, nm)
-        run.check(len(d) == 1 and "'%s'" % key in q.unparse(d[0][1]), r, si.short, "%s read from '%s'" % (nm, key), 'differs', S)
     unk = [x for x in rz if x not in both]
     good = False
     for x in unk:
         at = guard_atoms(x)
-        lits = sorted(a[2].strip("'") if a[1] == 'stype' else a[1].strip("'") for a in at if a[0] == '!=' and 'stype' in (a[1], a[2]))
-        if lits == ['deep history', 'final', 'shallow history'] and ('is not', 'stype', 'None') in at:
+        ty = N['stype']
+        lits = sorted(a[2].strip("'") if a[1] == ty else a[1].strip("'") for a in at if a[0] == '!=' and ty in (a[1], a[2]))
+        if lits == ['deep history', 'final', 'shallow history'] and ('is not', ty, 'None') in at:
             good = True
     run.check(good, r, si.short, 'unknown state type is rejected', 'the final else of the type dispatch must raise StatechartError', S)
 
@@ -228,7 +230,7 @@ def check(run):
         st = q.enclosing_stmt(bc[0])
         var = st.targets[0].id if isinstance(st, ast.Assign) and isinstance(st.targets[0], ast.Name) else None
         apps = [c for c in q.calls(I) if isinstance(c.func, ast.Attribute) and c.func.attr == 'append' and isinstance(c.func.value, ast.Name)
-                and c.args and any(isinstance(x, ast.Name) and x.id == var for x in ast.walk(c.args[0])) and c.func.value.id != 'data_to_consider']
+                and c.args and any(isinstance(x, ast.Name) and x.id == var for x in ast.walk(c.args[0])) and c.func.value.id != N['work']]
         lp = q.enclosing(bc[0], (ast.For, ast.While))
         run.check(len(apps) == 1 and not [g for g in guards(apps[0], stop=lp) if not g[2].startswith('early')] and q.never_after(I, st, apps[0]), r, ii.short,
                   'every object built by %s is collected' % builder, 'a built object can be dropped', st)
@@ -240,8 +242,8 @@ def check(run):
                       'every collected object is registered through %s' % reg.split('.')[1], 'registration loop differs', I)
     # children are pushed for both composite kinds
     for key, klass in (('states', 'CompoundState'), ('parallel states', 'OrthogonalState')):
-        pushes = [c for c in q.calls(I) if isinstance(c.func, ast.Attribute) and c.func.attr == 'append' and dotted(c.func.value) == 'data_to_consider']
-        ok_ = any(("state_data['%s']" % key) in q.unparse(q.enclosing(c, ast.For).iter) and any(klass in a[1] and a[0] == 'truthy' for a in guard_atoms(c)) for c in pushes if q.enclosing(c, ast.For) is not None)
+        pushes = [c for c in q.calls(I) if isinstance(c.func, ast.Attribute) and c.func.attr == 'append' and dotted(c.func.value) == N['work']]
+        ok_ = any(("%s['%s']" % (N['sdata'], key)) in q.unparse(q.enclosing(c, ast.For).iter) and any(klass in a[1] and a[0] == 'truthy' for a in guard_atoms(c)) for c in pushes if q.enclosing(c, ast.For) is not None)
         run.check(ok_, r, ii.short, "children under '%s' are imported for %s" % (key, klass), 'children not traversed', I)
     yi = run.fn('import_from_yaml')
     Y = yi.node
